@@ -57,6 +57,12 @@ type Unit struct {
 	orphanLoops []int              // loop ordinals the contract names beyond the loops the function has (a loop moved into a helper)
 	adopted     map[*ssa.BasicBlock]int // loop header of an inlined helper without contract -> adopted orphan ordinal
 	droppedInv  map[*Clause]string // unlabelled helper invariants that can no longer be evaluated on the code: not assumed, not checked
+	// helpers without a contract whose body is outside the engine's subset: instead of giving the whole unit up (UNDECIDED)
+	// their calls are abstracted as unmodelled calls (arbitrary results, one level of argument memory havocked) - an
+	// over-approximation, so whatever is still proved holds; what fails is reported with no-failing-input-found unless a
+	// replay confirms it
+	abstract     map[string]bool
+	wantAbstract string
 }
 
 type loopInfo struct {
@@ -193,6 +199,24 @@ func (e *Engine) NewUnit(fn *ssa.Function, spec *FuncSpec) *Unit {
 type pathEnd struct{}
 
 func (u *Unit) Run() {
+	for attempt := 0; attempt < 4; attempt++ {
+		u.wantAbstract = ""
+		u.runOnce()
+		if u.wantAbstract == "" || u.houdini != nil {
+			return
+		}
+		if u.abstract == nil {
+			u.abstract = map[string]bool{}
+		}
+		u.abstract[u.wantAbstract] = true
+		fmt.Printf("NOTE: %s: helper %s (no contract) uses a construct outside the verified subset (%s); its calls are abstracted as unmodelled calls\n", u.key, u.wantAbstract, strings.Join(u.errs, "; "))
+		u.eng.assumes["helper abstracted as an unmodelled call (body outside the subset; results arbitrary, one level of argument memory havocked): "+u.wantAbstract] = true
+		u.obls, u.errs, u.paths = nil, nil, 0
+		u.inferred, u.houdiniDead, u.vacChecked, u.beforeHit, u.adopted, u.droppedInv = nil, nil, nil, nil, nil, nil
+	}
+}
+
+func (u *Unit) runOnce() {
 	defer func() {
 		if r := recover(); r != nil {
 			if ee, ok := r.(*EngineError); ok {
@@ -304,6 +328,9 @@ func (u *Unit) explore(st *State) {
 			}
 			if ee, ok := r.(*EngineError); ok {
 				msg := ee.msg
+				if st.frame != nil && st.frame.depth > 0 && st.frame.spec == nil && !strings.HasPrefix(msg, "spec: ") && !u.abstract[FuncKey(st.frame.fn)] {
+					u.wantAbstract = FuncKey(st.frame.fn)
+				}
 				if st.frame != nil && st.frame.block != nil && st.frame.idx < len(st.frame.block.Instrs) {
 					in := st.frame.block.Instrs[st.frame.idx]
 					msg += fmt.Sprintf(" [at %s in %s: %s]", u.eng.ld.posText(in.Pos()), st.frame.fn.Name(), in.String())
